@@ -36,7 +36,7 @@ def _setup(F, A):
     top = md.Topology()
     ch = top.add_chain()
     for i in range(A * B):
-        top.add_atom("CA", md.element.carbon, top.add_residue("ALA", ch))
+        top.add_atom("CA", md.element.carbon if i % 3 else md.element.sulfur, top.add_residue("ALA", ch))    # unequal masses: centre of mass != centre of geometry
     base = (rs.rand(F + 14, 2 * A * B, 3) * 2 + np.arange(F + 14)[:, None, None] * 0.37).astype(np.float32)
     _env.update(F=F, A=A, top=top, base=base)
 
@@ -207,6 +207,13 @@ def _replay(task):
                 T, S = o[s["x"]]
                 T.center_coordinates()
                 S["xyz"] = (S["xyz"] - S["xyz"].astype(np.float64).mean(1, keepdims=True)).astype(np.float32)
+            elif op == "center_mw":
+                T, S = o[s["x"]]
+                T.center_coordinates(mass_weighted=True)
+                m = np.array([a.element.mass for a in T.topology.atoms], dtype=np.float64)
+                com = (S["xyz"].astype(np.float64) * m[None, :, None]).sum(1, keepdims=True) / m.sum()
+                S["xyz"] = (S["xyz"] - com).astype(np.float32)
+                S["tol"] = max(S.get("tol", 3e-6), 2e-5)
             elif op == "superpose":
                 (T, S), (R, RS) = o[s["x"]], o[s["y"]]
                 fr = s["dst"] - 1
